@@ -40,7 +40,7 @@ type RunConfig struct {
 func defaultConfig(tier string) *RunConfig {
 	c := &RunConfig{
 		Tier: tier, MaxInstrs: 20_000_000, MaxDecisions: 4000, MaxConcretize: 70, MaxThreads: 8, MaxPreempt: 2,
-		MaxAlloc: 1 << 22, MaxPaths: 200000, TimeoutMs: 10000, Workers: 8, SolverBin: defaultSolver(), SamplePaths: 6,
+		MaxAlloc: 1 << 22, MaxPaths: 200000, TimeoutMs: 10000, Workers: 8, SolverBin: defaultSolver(), SamplePaths: 8,
 	}
 	if tier == "thorough" {
 		c.TimeoutMs = 60000
@@ -132,6 +132,7 @@ type HarnessResult struct {
 	Internal    []string            `json:"internal_errors,omitempty"`
 	TimedOut    bool                `json:"timed_out,omitempty"`
 	PathCapHit  bool                `json:"path_cap_hit,omitempty"`
+	Validated   int            `json:"sample_paths_validated_natively"`
 	declCovers  map[string]bool
 }
 
